@@ -104,6 +104,10 @@ def main():
             for u in vunits:
                 futures[('verus', u)] = ex.submit(_safe, verus.run, u, snapshot, gen)
                 futures[('canary', u)] = ex.submit(_safe, verus.run, u, snapshot, gen, True)
+                if tier == 'thorough':
+                    # stability: the same obligations under two other SMT seeds (a disagreement is reported as unstable, never as a violation)
+                    for sd in (7, 1234):
+                        futures[('seed%d' % sd, u)] = ex.submit(_safe, verus.run, u, snapshot, gen, False, None, sd)
             if kh:
                 stems = sorted({s for s, _ in kh})
                 names = [h for _, hs in kh for h in hs]
@@ -112,6 +116,8 @@ def main():
         results = {k: f.result() for k, f in futures.items()}
 
         obligations = discharged = 0
+        lemma_canary_total = 0
+        stability = []
         samples, fn_table, backends, smt_ms_total, kani_time = [], [], set(), 0, 0.0
         expected = load_json(os.path.join(HERE, 'contracts', 'expected_obligations.json'), {})
         ext_scan = 0
@@ -180,6 +186,16 @@ def main():
                                    'was_expected_to_pass': (q in exp_unit) if exp_unit else None,
                                    'function_meta': {k: v for k, v in next((m for m in metas if m['qual'] == q), {}).items() if k != 'line_map'},
                                    'extracted_text': _fn_text(gen_text, next((m for m in metas if m['qual'] == q), None))})
+            if tier == 'thorough':
+                for sd in (7, 1234):
+                    rs = results.get(('seed%d' % sd, u))
+                    if isinstance(rs, Exception) or rs is None or rs.get('timeout') or rs.get('compile_error'):
+                        undecided.append('unit %s: stability run with SMT seed %d did not complete' % (u, sd)); continue
+                    bad = sorted({e['fn'] or '<lemma>' for e in rs['errors']})
+                    main_bad = sorted({e['fn'] or '<lemma>' for e in r['errors']})
+                    stability.append({'unit': u, 'seed': sd, 'errors': len(rs['errors']), 'smt_ms': rs.get('smt_ms')})
+                    if bad != main_bad:
+                        undecided.append('unit %s: UNSTABLE under SMT seed %d: functions with open obligations %s vs %s in the main run' % (u, sd, bad, main_bad))
             # canary
             if isinstance(c, Exception) or c.get('timeout') or c.get('compile_error'):
                 undecided.append('unit %s: canary run failed (%s)' % (u, c if isinstance(c, Exception) else 'rejected/timeout'))
@@ -188,6 +204,12 @@ def main():
                 for m in in_filter:
                     if m['qual'] not in hit:
                         undecided.append('unit %s: VACUITY canary: assert(false) at the top of %s was NOT refuted (contradictory precondition or inconsistent assumed contracts)' % (u, m['qual']))
+                # lemmas with a `requires` clause: the same canary (a contradictory lemma precondition would make every use of it vacuous)
+                hit_lines = [e['gen_line'] for e in c['errors'] if e['message'].startswith('assertion failed') and e.get('gen_line')]
+                for name, l0, l1 in c.get('lemma_canaries', []):
+                    lemma_canary_total += 1
+                    if not any(l0 <= g <= l1 for g in hit_lines):
+                        undecided.append('unit %s: VACUITY canary: assert(false) at the top of lemma %s was NOT refuted (contradictory requires)' % (u, name))
             for m in in_filter:
                 f = r['functions'].get(m['qual'], {})
                 fn_table.append({'unit': u, 'function': m['qual'], 'source': '%s:%d-%d' % (m['file'], m['src_lines'][0], m['src_lines'][1]),
@@ -327,7 +349,8 @@ def main():
                 'not_decided_clauses': P.get('not_decided', []),
                 'assumption_markers_in_generated_files': ext_scan,
                 'rewrite_rules': [list(x) for x in extract.rule_table()],
-                'canary': 'assert(false) injected at the top of every function under contract must be refuted (run on every check)',
+                'stability_runs': stability,
+                'canary': 'assert(false) injected at the top of every function under contract and of every lemma that has a requires clause must be refuted (run on every check; %d lemma canaries this run)' % lemma_canary_total,
                 'repo_head': head, 'repo_dirty_src': bool(dirty),
                 'undecided': undecided, 'known_findings_reported': known_lines,
             },
